@@ -88,6 +88,12 @@ CHECKS["C14"] = dict(
    text="TLC checks WireEq = Structural, symmetry and transitivity on all same-typed pairs (and triples through an equal third) of the decodable part of the wire universe (84k states quick, 787k thorough). For every type of family F1, every ordered pair of its values becomes a triple (value, permuted re-encoding, other value): the generated code decodes them and the 3x3 Equals matrix, the ValuesAreEqual matrix of the ToWire forms and nil receiver/argument behaviour are judged against structural equality of the projected logical values (doubles numerically, sets/maps as sets), reflexivity, symmetry, transitivity. 21k wire-value pairs (universe peers, one-step perturbations incl. +0/-0, random nested values) are judged against Structural and the transcription (zero drift).",
    note="Claimed domain as in the property: NaN-free, duplicate-free sets/keys/field ids. Trusted: TLC, reflection projection.")
 
+CHECKS["C15"] = dict(
+   level="model_checking", ref="DESIGN.md section 5 (C15), Redact.tla",
+   technique="TLA+ classification of value leaves by the annotations on their path (Redact.tla Leaves) checked by TLC against the emission structure of the templates (Emitted; negative control: a container printing items raw); the same schemas/values with unique marker payloads generated with zap on/off, compiled and run; marker occurrences in String()/Error()/zap JSON judged by C15Trace.tla",
+   text="For 10 secret shapes x required/optional x struct/exception (40 schemas), a holder reaches the annotated struct directly, through list, set, map value, unhashable map key, typedef, typedef of list, and has annotated fields itself; every leaf carries a unique marker. TLC checks on the model that no redact-classified leaf is emitted by any sink and no nolog leaf reaches zap, and that everything else is emitted. Each schema is generated by the real generator with zap and with --no-zap, built, and the decoded value's String(), Error() (exceptions) and zapcore JSON encoder output are searched for every marker in all its spellings (text, decimal byte list, base64); TLC requires redacted markers nowhere, nolog markers and labels absent from zap, and all other labels/markers present.",
+   note="Trusted: TLC, the substring search of the lab driver, zap's JSON encoder. '%#v' bypasses String() and is outside the property. Quick tier samples 36 of the 80 (schema, option) labs.")
+
 NOT_YET = {}
 
 def main():
